@@ -82,7 +82,9 @@ var tagShapes = []string{"#work", "#Work", "#WORK", "#home-office", "#under_scor
 	// names that extend another name by a character sorting before '=' or after it (row grouping in `tags --values`)
 	"#dup-x", "#dup2", "#dup_x=v", "#a-b", "#a1=3", "#ticket-open", "#ticket2=1", "#t1-a=v", "#t1=w", "#t10",
 	// long names and values in scripts with multi-byte letters (more bytes than characters), characters of category Sk, a backslash in front of the closing quote
-	"#длинноеназваниетегапроекта", "#这是一个非常长的标签名称用于测试", "#προγραμματισμόςκαιανάπτυξη=\"μεγάληαξίαγιατηνετικέταμας\"", "#topic=\"x^2 + y^2\"", "#cmd='`ls -la`'", "#dir=\"C:\\\"", "#p='a\\\"b'", "#ticket=12", "#ticket"}
+	"#длинноеназваниетегапроекта", "#这是一个非常长的标签名称用于测试", "#προγραμματισμόςκαιανάπτυξη=\"μεγάληαξίαγιατηνετικέταμας\"", "#topic=\"x^2 + y^2\"", "#cmd='`ls -la`'", "#dir=\"C:\\\"", "#p='a\\\"b'", "#ticket=12", "#ticket",
+	// tags may appear anywhere within a summary: glued to punctuation or to other text
+	"(#work,", "(#t1)", "pairing/#t2", "#t1,#t2", "[#dup=v]", "issue#12", "#gym#sauna", "über#t3", "«#work»", "x:#a=1;", "\"#t2\"", "—#ticket=891"}
 
 // word returns one summary word according to the options.
 func word(r *core.Rand, o *Opts, out *Out) string {
@@ -440,6 +442,9 @@ func Document(r *core.Rand, o Opts) *Out {
 		}
 		if wantShould {
 			sd := GenDuration(r, 12)
+			if o.MaxHours > 1000000 && r.Chance(1, 4) {
+				sd = GenDuration(r, o.MaxHours) // the specification sets no upper bound
+			}
 			if r.Chance(2, 3) && sd.Mins < 0 {
 				sd.Mins = -sd.Mins
 			}
@@ -534,9 +539,14 @@ func Document(r *core.Rand, o Opts) *Out {
 					first = " " + first // extra leading blank belongs to the summary
 				}
 			}
+			// an open range whose summary starts on the subsequent line (the entry line ends with the placeholder)
+			forceBelow := e.Kind == ref.KOpen && r.Chance(1, 4)
+			if forceBelow {
+				first = ""
+			}
 			idOnNextLine := false
 			if o.IDs {
-				if first == "" && r.Chance(1, 3) {
+				if first == "" && (forceBelow || r.Chance(1, 3)) {
 					idOnNextLine = true // the summary (and its id token) starts on the continuation line
 				} else if first == "" {
 					first = idTok(ri, ei)
@@ -554,7 +564,7 @@ func Document(r *core.Rand, o Opts) *Out {
 				line += " " + first
 			}
 			emit(line, lay.EOL, LineInfo{Kind: LEntry, Rec: ri, Ent: ei})
-			if r.Chance(1, 4) || idOnNextLine {
+			if r.Chance(1, 4) || idOnNextLine || forceBelow {
 				out.feat("multi_line_summary")
 				for k := r.Range(1, 2); k > 0; k-- {
 					cont := phrase(r, &o, out, 1, 5)
